@@ -127,6 +127,7 @@ func main() {
 	genOps(*repo, *out)
 	genOrder(*repo, *out)
 	genStatus(*repo, *out)
+	genDiscover(*repo, *out)
 	genSource(*repo, *out)
 }
 
